@@ -26,11 +26,11 @@ ASSUMPTIONS = [
 MECHANISMS = []   # the mechanisms run in child processes; they are counted there through the event log (see monitors)
 REQUIRED_MONITORS = ['one_result_per_input', 'no_abort', 'results_mode_independent', 'outputs_mode_independent',
                      'exactly_once_output', 'valid_files_converted', 'worker_events', 'overlapping_tasks_seen']
-MIN_NONTRIVIAL = {'quick': 8, 'thorough': 150}
+MIN_NONTRIVIAL = {'quick': 8, 'thorough': 60}
 NSHARDS = {'quick': 8, 'thorough': 12}
-DIRS = {'quick': 4, 'thorough': 30}            # directories per shard
+DIRS = {'quick': 4, 'thorough': 12}            # directories per shard
 JOBS = {'quick': [2, 4, 16], 'thorough': [1, 2, 3, 4, 8, 16]}
-DELAY_SEEDS = {'quick': 1, 'thorough': 3}
+DELAY_SEEDS = {'quick': 1, 'thorough': 2}
 TIMEOUT_S = {'quick': 420, 'thorough': 3400}
 CHILD_TIMEOUT = 180
 CONVERTERS = ['rp66v1', 'lis', 'bit']
